@@ -1,0 +1,105 @@
+//go:build verif
+// +build verif
+
+package vm
+
+import (
+	"bufio"
+	"fmt"
+	"os"
+	"strings"
+	"sync"
+)
+
+// File tracer for the verification harness (build tag verif only): one JSON line per hook event,
+// frames and scopes named by small integers.  Installed by VerifTraceTo, or at start-up when the
+// environment variable ANKO_VERIF_TRACE names a file (so that the package's own tests can be traced).
+
+type verifTracer struct {
+	mu     sync.Mutex
+	w      *bufio.Writer
+	f      *os.File
+	frames map[interface{}]int
+	n      int
+}
+
+var verifFileTracer *verifTracer
+
+// VerifTraceTo starts writing hook events to path ("" stops and flushes).
+func VerifTraceTo(path string) error {
+	if t := verifFileTracer; t != nil {
+		t.mu.Lock()
+		t.w.Flush()
+		t.f.Close()
+		t.mu.Unlock()
+		verifFileTracer = nil
+		VerifHook = nil
+	}
+	if path == "" {
+		return nil
+	}
+	f, err := os.OpenFile(path, os.O_CREATE|os.O_WRONLY|os.O_APPEND, 0o644)
+	if err != nil {
+		return err
+	}
+	t := &verifTracer{w: bufio.NewWriterSize(f, 1<<16), f: f, frames: map[interface{}]int{}}
+	verifFileTracer = t
+	VerifHook = t.event
+	return nil
+}
+
+// VerifTraceFlush flushes the file tracer.
+func VerifTraceFlush() {
+	if t := verifFileTracer; t != nil {
+		t.mu.Lock()
+		t.w.Flush()
+		t.mu.Unlock()
+	}
+}
+
+func verifSig(err error) string {
+	switch err {
+	case nil:
+		return "none"
+	case ErrBreak:
+		return "Break"
+	case ErrContinue:
+		return "Continue"
+	case ErrReturn:
+		return "Return"
+	case ErrInterrupt:
+		return "Interrupt"
+	}
+	return "Err"
+}
+
+func (t *verifTracer) event(ev VerifEvent) {
+	if ev.Kind == "Poll" || ev.Kind == "Spawn" {
+		return
+	}
+	t.mu.Lock()
+	defer t.mu.Unlock()
+	id, ok := t.frames[ev.Frame]
+	if !ok || ev.Kind == "FuncEnter" || ev.Kind == "RunBegin" {
+		t.n++
+		id = t.n
+		t.frames[ev.Frame] = id
+	}
+	kind := "nil"
+	if ev.Stmt != nil {
+		kind = strings.TrimPrefix(fmt.Sprintf("%T", ev.Stmt), "*ast.")
+	}
+	fmt.Fprintf(t.w, "{\"ev\":%q,\"f\":%d,\"kind\":%q,\"same\":%v,\"sig\":%q,\"nd\":%d,\"index\":%d}\n", ev.Kind, id, kind, ev.EnvSame, verifSig(ev.Err), ev.NDefers, ev.Index)
+	if ev.Kind == "FuncExit" || ev.Kind == "RunEnd" {
+		delete(t.frames, ev.Frame)
+	}
+	if ev.Kind == "RunEnd" {
+		t.w.Flush()
+	}
+}
+
+func init() {
+	if path := os.Getenv("ANKO_VERIF_TRACE"); path != "" {
+		VerifTraceTo(path)
+	}
+}
